@@ -589,7 +589,7 @@ def _simpler(case):
         if raises(s) and s[-1] != '!O':
             yield clone(scripts=scr[:i] + [s[:-1] + ('!O',)] + scr[i + 1:])
 
-def shrink(case, budget=400):
+def shrink(case, budget=150):
     """greedy removal while *some* disagreement persists -> minimal failing shape"""
     cur = case
     progress = True
@@ -630,6 +630,16 @@ def signature(case):
         raise core.HarnessError('shrunk case does not reproduce: %r' % (small,))
     return '%s :: %s' % (shape(small), '+'.join(diff)), small, diff, real, exp
 
+_MEMO = {}
+
+def presignature(case, diff):
+    if case['form'] == 'gen':
+        cfg = tuple(sorted((k, v) for k, v in case.items() if k not in ('segs', 'drive', 'form')))
+        return ('gen', cfg, len(case['segs']), tuple(s[-1] for s in case['segs'] if raises(s)),
+                tuple(a.split(':')[0] for a in case['drive']), diff)
+    return (case['form'], tuple(tuple(sorted(L.items())) for L in case['levels']), len(case['scripts']),
+            tuple(s[-1] if raises(s) else '' for s in case['scripts']), diff)
+
 def nontrivial(case):
     if case['form'] == 'gen':
         return any('W' in s for s in case['segs'])
@@ -655,8 +665,20 @@ def check_case(sub, case, outcomes):
     again = run_real(case)
     if again != real and not (real[3] or again[3]):     # leaked session state legitimately makes runs differ
         raise core.HarnessError('non-deterministic execution of %r: %r then %r' % (case, real, again))
-    sig, small, sdiff, sreal, sexp = signature(case)
     sub.count('raw_disagreements')
+    # Shrinking costs ~100 executions. Cases of one class (same form, level structure, final
+    # exception kinds, differing components) shrink to the same minimal shape; after 3 members of a
+    # class agreed on it, later members are attributed to it without being shrunk again.
+    pre = presignature(case, diff)
+    memo = _MEMO.setdefault(pre, dict(n=0, sigs={}))
+    if memo['n'] >= 3 and len(memo['sigs']) == 1:
+        sig = next(iter(memo['sigs']))
+        small, sreal, sexp = memo['sigs'][sig]
+        sub.count('disagreements_attributed_without_shrinking')
+    else:
+        sig, small, sdiff, sreal, sexp = signature(case)
+        memo['n'] += 1
+        memo['sigs'][sig] = (small, sreal, sexp)
     msg = ('%s: database rows %r, body executions %d, propagated %r, leaks %r; expected rows %r, '
            'executions %d, exception in %r' % (shape(small), list(sreal[0]), len(sreal[1]), sreal[2], list(sreal[3]),
                                                list(sexp[0][0]), len(sexp[0][1]), sorted(map(str, sexp[0][2]))))
